@@ -24,7 +24,10 @@ impl<'b, T: El> PairDyn for Pair<'b, T> {
         let op = gen_op::<T>(rng, self.sv.len());
         let h = op.name().len() as u64 * 31 + op.name().as_bytes()[0] as u64;
         let fuse = if T::TRACKED && matches!(op, VOp::Resize(..) | VOp::ExtendFromSlice(..) | VOp::CloneSwap | VOp::MacroRepeat(..)) && rng.chance(1, 3) {
-            Some(rng.range(1, 6) as u64)
+            Some((ledger::F_CLONE, rng.range(1, 6) as u64))
+        } else if matches!(op, VOp::Splice(..)) && rng.chance(1, 3) {
+            // the replacement iterator panics in its k-th `next`, on both sides alike
+            Some((ledger::F_ITER, rng.range(1, 7) as u64))
         } else {
             None
         };
